@@ -230,12 +230,12 @@ CHECKS["C18"] = {
 }
 
 CHECKS["C20"] = {
-    "tests": [T("TestC20CoreAPI", 300, 6000), T("TestC20Direct", 60, 1500), T("TestC20OneOnOne", 4, 40, qshards=4, tshards=8, qtimeout=900)],
+    "tests": [T("TestC20CoreAPI", 300, 6000), T("TestC20Direct", 60, 1500), T("TestC20OneOnOne", 4, 40, qshards=4, tshards=8, qtimeout=900), T("TestC20Raw", 40, 800)],
     "level": "exploration",
     "technique": "property-based testing (rapid) of the bundled adapters over scripted lower layers: generated membership snapshot sequences and message streams for pubsubcoreapi, generated send interleavings over a shared scripted pubsub for the pairwise channel, generated payload sizes on the varint/limit boundaries over libp2p mocknet streams for the direct channel; sequence oracles (exact diff, once/intact/attributed)",
-    "rule": "TestC20CoreAPI: pubsubcoreapi over a scripted coreiface.PubSubAPI whose Peers() returns 1-8 drawn snapshots (subsets of 6 peers, 1 ms poll) and whose subscription delivers 0-12 drawn messages from self or others (0-70000 bytes): WatchPeers must report, snapshot by snapshot, exactly one join per appearance and one leave per disappearance and nothing once membership is stable; WatchMessages must deliver every remote message once, in order, byte for byte and no own message; non-trivial = a peer left and rejoined. TestC20OneOnOne: two oneonone channels over one scripted pubsub+swarm with drawn peer ids; both Connect concurrently, must subscribe to the same channel name, then 1-10 sends (0..65536 bytes) in a drawn interleaving are each emitted exactly once at the other end, intact, attributed to the sender, never at the sender; non-trivial = both ends sent. TestC20Direct: directchannel between two mocknet hosts, 1-6 sends in both directions with sizes from {0,1,127,128,16383,16384,65535,4MiB-1,4MiB,4MiB+1}: payloads up to the limit arrive once, intact, attributed to the stream's remote peer; larger ones are not delivered; a following small payload still arrives in both directions. (Raw hostile frames on the same stream protocol are generated by C12's TestC12Frame.) distinct = SHA-1 of the case JSON",
-    "level_text": "Generated scripts for the lower layer; the adapters run unmodified. pubsubraw (real go-libp2p-pubsub gossip) is not driven: see level_note.",
-    "level_note": "pubsubraw is a thin wrapper over go-libp2p-pubsub whose delivery timing is owned by gossipsub heartbeats; it is exercised only indirectly by the repository's own replication tests, not by this check. oneonone.Connect waits at least one second by construction, so its cases are few.",
+    "rule": "TestC20CoreAPI: pubsubcoreapi over a scripted coreiface.PubSubAPI whose Peers() returns 1-8 drawn snapshots (subsets of 6 peers, 1 ms poll) and whose subscription delivers 0-12 drawn messages from self or others (0-70000 bytes): WatchPeers must report, snapshot by snapshot, exactly one join per appearance and one leave per disappearance and nothing once membership is stable; WatchMessages must deliver every remote message once, in order, byte for byte and no own message; non-trivial = a peer left and rejoined. TestC20OneOnOne: two oneonone channels over one scripted pubsub+swarm with drawn peer ids; both Connect concurrently, must subscribe to the same channel name, then 1-10 sends (0..65536 bytes) in a drawn interleaving are each emitted exactly once at the other end, intact, attributed to the sender, never at the sender; non-trivial = both ends sent. TestC20Direct: directchannel between two mocknet hosts, 1-6 sends in both directions with sizes from {0,1,127,128,16383,16384,65535,4MiB-1,4MiB,4MiB+1}: payloads up to the limit arrive once, intact, attributed to the stream's remote peer; larger ones are not delivered; a following small payload still arrives in both directions. (Raw hostile frames on the same stream protocol are generated by C12's TestC12Frame.) TestC20Raw: pubsubraw over real go-libp2p-pubsub (floodsub router) on 2-3 mocknet hosts: once every node sees the others on the topic, 1-8 publishes (0..200000 bytes) from drawn nodes; every other node receives each payload exactly once and intact, no node receives its own, and every node saw exactly one join per other peer; non-trivial = two different publishers. distinct = SHA-1 of the case JSON",
+    "level_text": "Generated scripts for the lower layer; the adapters run unmodified.",
+    "level_note": "pubsubraw is driven over the floodsub router (immediate forwarding) rather than gossipsub, whose delivery timing is owned by heartbeats; leave events of pubsubraw are not exercised. oneonone.Connect waits at least one second by construction, so its cases are few.",
     "design_ref": "5/C20",
     "assumptions": TRUST,
 }
